@@ -8,6 +8,10 @@ use serde_json::{json, Value};
 use std::process::Command;
 
 fn run_engine(path: &str, args: &[&str], envs: &[(&str, &str)], label: &str) -> Report {
+    run_engine_for("C08", path, args, envs, label)
+}
+
+pub fn run_engine_for(id: &str, path: &str, args: &[&str], envs: &[(&str, &str)], label: &str) -> Report {
     let t0 = std::time::Instant::now();
     let mut cmd = Command::new(path);
     cmd.args(args);
@@ -37,7 +41,7 @@ fn run_engine(path: &str, args: &[&str], envs: &[(&str, &str)], label: &str) -> 
             if let Some(sig) = out.status.signal() {
                 // an engine that runs the library's band code in-process died on a signal: a crash
                 // verdict (memory corruption / abort inside the library), not a machinery failure
-                let s = format!("C08|crash|engine '{}' died on signal {} while running band code", label, sig);
+                let s = format!("{}|crash|engine '{}' died on signal {} while running band code", id, label, sig);
                 rep.sig_counts.insert(s.clone(), 1);
                 rep.viols.push(Viol { space: format!("engine:{}", label), idx: 0, sig: s, detail: json!({"status": format!("{:?}", out.status)}) });
             } else {
@@ -46,14 +50,14 @@ fn run_engine(path: &str, args: &[&str], envs: &[(&str, &str)], label: &str) -> 
             }
         }
         Err(e) => {
-            eprintln!("MACHINERY-ERROR cannot run {}: {} (was `run.sh --setup` / `run.sh C08` used?)", path, e);
+            eprintln!("MACHINERY-ERROR cannot run {}: {} (was `run.sh --setup` / `run.sh {}` used?)", path, e, id);
             rep.notes.insert("machinery_errors".into(), 1);
         }
     }
     for v in rep.viols.iter_mut() {
         v.space = format!("engine:{}", label);
     }
-    eprintln!("[C08] engine {:<28} cases {:>8} transitions {:>9} violations {} {:.1}s", label, rep.cases, rep.ops, rep.sig_counts.len(), t0.elapsed().as_secs_f64());
+    eprintln!("[{}] engine {:<28} cases {:>8} transitions {:>9} violations {} {:.1}s", id, label, rep.cases, rep.ops, rep.sig_counts.len(), t0.elapsed().as_secs_f64());
     rep
 }
 
